@@ -80,7 +80,7 @@ def main():
                      'kind_free_text': 'hand-written deterministic simulator in Python: seeded plan generation, baton-passing thread scheduler on sys.settrace, simulated file system, process nodes with chosen hash seeds, reference models, ddmin minimisation, replay files'}],
         'checks': checks,
         'not_applicable': na,
-        'notes': 'Technique family: deterministic simulation with fault injection. Exit codes: 0 held, 1 VIOLATION, 2 HARNESS-ERROR (never a verdict). Known findings: KNOWN_FINDINGS.txt (fixed: lines for the 18 repaired defects, open: lines for 4 that are printed as KNOWN-FINDING and exit 0). Seeded breaking changes used to test the checks: seeded/.',
+        'notes': 'Technique family: deterministic simulation with fault injection. Exit codes: 0 held, 1 VIOLATION, 2 HARNESS-ERROR (never a verdict). Known findings: KNOWN_FINDINGS.txt (fixed: lines for the 25 repaired defects, open: lines for 4 that are printed as KNOWN-FINDING and exit 0). Seeded breaking changes used to test the checks: seeded/.',
     }
     path = os.path.join(VERIF, 'MANIFEST.json')
     with open(path, 'w') as f:
